@@ -39,7 +39,7 @@ SERIAL_THREADS = True
 RULE = (
     "iterator part: 10 queries x 7 harness configurations (sharing of query / environment / document) "
     "x all interleavings of next() over 2-3 iterators (multinomial; every schedule replayed on fresh "
-    "iterators) + all single close/drop points for k=2; thread part: 18 two-thread harnesses x all "
+    "iterators) + all single close/drop points for k=2; thread part: 20 two-thread harnesses x all "
     "schedules with <=1 (quick) / <=2 (thorough, capped) preemptions at line granularity; compile-only part: "
     "1 (quick) / 4 (thorough) two-thread compile harnesses x ALL schedules with <=2 preemptions; distinct by "
     "construction; non-trivial = schedules in which at least two iterators/threads are live at once"
@@ -66,6 +66,9 @@ QUERIES = [
     # '.' inside a character class (a literal dot) / outside (anything but CR, LF), on subjects that tell them apart
     ("$[?match(@.b, '[.]y|a[^.]')]", [{"b": ".y"}, {"b": "xy"}, {"b": "a."}, {"b": "ab"}]),
     ("$[?search(@.b, 'x.')]", [{"b": "x\r"}, {"b": "xy"}, {"b": "ax\n"}, {"b": "x"}]),
+    # the bare current node as comparison operand / function argument
+    ("$[?@ >= 20]", [5, 20, 35, 7]),
+    ("$[?length(@) == 2]", ["ab", "c", "de", [1, 2], {"k": 1}]),
 ]
 N_ITER_QUERIES = 10
 ALT_DOC = {"a": 7, "b": [{"a": 1, "b": "x"}, [5, 6]], "x": 2, "l": [{"a": 2}]}
@@ -256,13 +259,15 @@ T_HARNESS = [
     ("value() in a shared compiled query / find", 12, 12, "iter", "find"),
     ("match with '.' inside a class / search with '.' outside, CR LF subjects", 13, 14, "find", "find"),
     ("match with '.' inside a class, shared compiled query", 13, 13, "iter", "iter"),
+    ("bare @ compared / bare @ as argument, two compiled queries", 15, 16, "iter", "iter"),
+    ("bare @ as argument, shared compiled query / find", 16, 16, "iter", "find"),
     # the main thread holds a half-advanced iterator of a filter query on the shared environment
     # while two other threads evaluate / compile on it
     ("find / compile while an iterator of the environment is suspended half-way", 0, 2, "find_held", "compile"),
 ]
 
 
-T3 = {18: (0, "iter"), 19: (4, "find")}  # thorough only: harness index -> (query, kind) of a third thread
+T3 = {20: (0, "iter"), 21: (4, "find")}  # thorough only: harness index -> (query, kind) of a third thread
 T_HARNESS_3 = [
     ("three threads: finditer x2 shared query + find", 0, 0, "iter", "iter"),
     ("three threads: match two patterns + third pattern", 4, 10, "find", "find"),
@@ -353,7 +358,7 @@ def thread_bodies(h):
         bodies = [body(qa, ka), body(qb, kb)]
         bodies[0].keep_alive = shared  # a suspended iterator held in `shared` lives as long as the bodies
         if third is not None:
-            bodies.append(body(11 if h == 19 else third[0], third[1]))
+            bodies.append(body(11 if h == 21 else third[0], third[1]))
         return bodies
 
     def make():
